@@ -21,12 +21,24 @@ tvars == <<tid, l, err>>
 
 P2(x) == <<x[1], x[2]>>
 P3(x) == <<x[1], x[2], x[3]>>
-Proj(x) == [path |-> x[1], pts |-> [i \in DOMAIN x[2] |-> P2(x[2][i])], oris |-> [i \in DOMAIN x[3] |-> P3(x[3][i])]]
-Expected(e) == {[path |-> c.path, pts |-> c.pts, oris |-> c.oris] : c \in {d \in Range(WorldOf(Range(e.mix))) : d.kind = e.kind}}
+(* comps entry <<path, pts, oris, vels>>; vels entry <<vx, vy, nx, ny, fr, un>>: stored velocity vector before, after the  *)
+(* call den * v' is within tolerance of the integers (nx, ny) iff fr = 1 (mode "flt": fr = 1 iff v' is v turned by a),        *)
+(* un = 1 iff both components are bit-for-bit what they were                                                                 *)
+Proj(x) == [path |-> x[1], pts |-> [i \in DOMAIN x[2] |-> P2(x[2][i])], oris |-> [i \in DOMAIN x[3] |-> P3(x[3][i])],
+            vels |-> [i \in DOMAIN x[4] |-> P2(x[4][i])]]
+OfKind(e) == {d \in Range(WorldOf(Range(e.mix))) : d.kind = e.kind}
+Expected(e) == {[path |-> c.path, pts |-> c.pts, oris |-> c.oris, vels |-> c.vels] : c \in OfKind(e)}
+RuleOf(e, x) == (CHOOSE c \in OfKind(e) : c.path = x[1]).vrule
 
 PtOk(e, x)  == x[5] = 1 /\ (e.mode = "flt" \/ <<x[3], x[4]>> = Image(e.rot, e.t, P2(x)))
 OriOk(e, o) == o[6] = 1 /\ (e.mode = "flt" \/ <<o[4], o[5]>> = P2(AngleSum(P3(o), e.rot)))
 AllUn(x)    == (\A i \in DOMAIN x[2] : x[2][i][6] = 1) /\ (\A i \in DOMAIN x[3] : x[3][i][7] = 1)
+               /\ (\A i \in DOMAIN x[4] : x[4][i][6] = 1)
+(* velocity of a component in scope: turned with the motion (point mass) or untouched (the state stores an orientation) *)
+VelOk(e, x, v) == IF RuleOf(e, x) = "rotate"
+                  THEN v[5] = 1 /\ (e.mode = "flt" \/ <<v[3], v[4]>> = VelImage(e.rot, P2(v)))
+                  ELSE v[6] = 1
+VelsOk(e, x) == \A i \in DOMAIN x[4] : VelOk(e, x, x[4][i])
 PtsOk(e, x)  == \A i \in DOMAIN x[2] : PtOk(e, x[2][i])
 OrisOk(e, x) == \A i \in DOMAIN x[3] : OriOk(e, x[3][i])
 In(e, x)    == IsPrefix(e.tgt, x[1])
@@ -35,9 +47,10 @@ ClauseTr(e) ==
     LET X == Range(e.comps)
     IN IF {Proj(x) : x \in X} # Expected(e) \/ Len(e.comps) # Cardinality(Expected(e)) THEN "driver/world-mismatch"
        ELSE IF e.mode = "tok" /\ P3(e.rot) \o <<e.rot[4]>> \notin Rot THEN "driver/unknown-rotation-token"
-       ELSE IF \E x \in X : In(e, x) /\ AllUn(x) /\ ~(PtsOk(e, x) /\ OrisOk(e, x)) THEN "C05.Forgotten/" \o e.kind
+       ELSE IF \E x \in X : In(e, x) /\ AllUn(x) /\ ~(PtsOk(e, x) /\ OrisOk(e, x) /\ VelsOk(e, x)) THEN "C05.Forgotten/" \o e.kind
        ELSE IF \E x \in X : In(e, x) /\ ~PtsOk(e, x)  THEN "C05.Image/" \o e.kind
        ELSE IF \E x \in X : In(e, x) /\ ~OrisOk(e, x) THEN "C05.Orientation/" \o e.kind
+       ELSE IF \E x \in X : In(e, x) /\ ~VelsOk(e, x) THEN "C05.Velocity/" \o e.kind
        ELSE IF \E x \in X : ~In(e, x) /\ ~AllUn(x)    THEN "C05.Collateral/" \o e.kind
        ELSE ""
 
